@@ -55,6 +55,11 @@ typedef struct {
  * Enumeration over all IEEE 1722 header fields. The naming convention used is
  * AVTP_<MSG_TYPE>_FIELD_<FIELD_NAME>.
  */
+#ifdef COVESA_OPEN1722_VERIF
+/* verification hook: the verifier's C front end compares enum operands as signed int, GCC (no negative
+ * enumerator) as unsigned int; under the guard the identifier type is the unsigned int GCC uses */
+#define Avtp_CommonHeaderField_t Avtp_CommonHeaderField_t_verif_enum
+#endif
 typedef enum Avtp_CommonHeaderField{
     /* Common AVTP header fields */
     AVTP_COMMON_HEADER_FIELD_SUBTYPE = 0,
@@ -64,6 +69,10 @@ typedef enum Avtp_CommonHeaderField{
     /* Count number of fields for bound checks */
     AVTP_COMMON_HEADER_FIELD_MAX
 } Avtp_CommonHeaderField_t;
+#ifdef COVESA_OPEN1722_VERIF
+#undef Avtp_CommonHeaderField_t
+typedef unsigned int Avtp_CommonHeaderField_t;
+#endif
 
 typedef enum {
     AVTP_SUBTYPE_61883_IIDC        = 0x0,
